@@ -403,6 +403,8 @@ def _run_vrp(case, obs):
         obs.outcome("vrp:" + res.kind)
         return
     obs.outcome("vrp:" + status_name(res))
+    if not count.get("vrp.op.applications"):
+        obs.inconc("solve_vrptw returned without a single monitored operator application (monitor bypassed?)")
     state = res.solution
     try:
         snap = _O.snapshot(state)
